@@ -254,6 +254,35 @@ func genG11Shutdown(repo string, w *Out) error {
 		}
 	}
 	w.DefZ("default_shutdown_timeout_ms", stms)
+	// shutdownContext: the timeout is applied only when it is positive (zero = no limit), further
+	// shutdown signals cancel the drain only when some are configured
+	sc, err := sf.Func("shutdownContext")
+	if err != nil {
+		return err
+	}
+	tmoGuard, sigGuard, tmoAny := false, false, false
+	ast.Inspect(sc.Body, func(x ast.Node) bool {
+		switch n := x.(type) {
+		case *ast.IfStmt:
+			body := sf.Src(n.Body)
+			if sf.Src(n.Cond) == "cfg.ShutdownTimeout > 0" && strings.Contains(body, "context.WithTimeout(ctx, cfg.ShutdownTimeout)") {
+				tmoGuard = true
+			}
+			if sf.Src(n.Cond) == "len(cfg.ShutdownSignals) > 0" && strings.Contains(body, "signal.NotifyContext(ctx, cfg.ShutdownSignals...)") {
+				sigGuard = true
+			}
+		case *ast.CallExpr:
+			if sf.Src(n.Fun) == "context.WithTimeout" {
+				tmoAny = true
+			}
+		}
+		return true
+	})
+	if !tmoAny {
+		return fmt.Errorf("shutdownContext: no context.WithTimeout found")
+	}
+	w.DefBool("shutdown_timeout_guarded", tmoGuard)
+	w.DefBool("shutdown_signals_guarded", sigGuard)
 
 	// ---- HTTP/2 inside an intercepted (MITM) session: h2.Config.Proxy(closeCh, ...) ends BOTH relays the
 	// moment the closing signal is set (streams in flight are cut) — a path the LTS does not have.  It is
